@@ -2,6 +2,7 @@ package worlds
 
 import (
 	"fmt"
+	"strings"
 	"time"
 
 	"go.minekube.com/gate/pkg/edition/java/proto/packet"
@@ -37,6 +38,7 @@ type c27pack struct {
 	id       uuid.UUID
 	url      string
 	hash     string
+	noHash   bool
 	issued   int // seq at which it was queued (send / API call)
 	prompted int // seq of arrival at client (0 = never)
 	answer   string
@@ -45,7 +47,9 @@ type c27pack struct {
 }
 
 func runC27(r *Run) {
-	prots := []proto.Protocol{version.Minecraft_1_20.Protocol, version.Minecraft_1_20_2.Protocol, version.Minecraft_1_12_2.Protocol, version.Minecraft_1_8.Protocol, version.Minecraft_1_20_3.Protocol, version.Minecraft_1_21.Protocol, version.Minecraft_1_19_4.Protocol, version.Minecraft_1_15.Protocol}
+	prots := []proto.Protocol{version.Minecraft_1_20.Protocol, version.Minecraft_1_20_2.Protocol, version.Minecraft_1_12_2.Protocol, version.Minecraft_1_8.Protocol, version.Minecraft_1_20_3.Protocol, version.Minecraft_1_21.Protocol, version.Minecraft_1_19_4.Protocol, version.Minecraft_1_15.Protocol,
+		// the boundaries of the 'forced packs are still prompted' rule
+		version.Minecraft_1_17.Protocol, version.Minecraft_1_17_1.Protocol, version.Minecraft_1_16_4.Protocol}
 	prot := prots[r.W.Pick(len(prots))]
 	modern := prot.GreaterEqual(version.Minecraft_1_20_3)
 	has117 := prot.GreaterEqual(version.Minecraft_1_17)
@@ -57,6 +61,10 @@ func runC27(r *Run) {
 		p := &c27pack{n: i, backend: r.W.Pick(2) == 0, forced: r.W.Pick(3) == 0}
 		p.url = fmt.Sprintf("http://packs.example/%d.zip", i)
 		p.hash = fmt.Sprintf("%040x", 0xabc000+i)
+		p.noHash = r.W.Pick(4) == 0 // packs without a hash are legal
+		if p.noHash {
+			p.hash = ""
+		}
 		var u [16]byte
 		u[0], u[15] = 0x77, byte(i+1)
 		p.id = uuid.UUID(u)
@@ -173,6 +181,9 @@ func runC27(r *Run) {
 				p.issued = w.nextSeq()
 				h := make([]byte, 20)
 				h[19] = byte(p.n + 1)
+				if p.noHash {
+					h = nil
+				}
 				_ = pl.SendResourcePack(proxy.ResourcePackInfo{ID: p.id, URL: p.url, Hash: h, ShouldForce: p.forced, Origin: proxy.PluginOnProxyResourcePackOrigin})
 				p.apiRet = true
 			}
@@ -204,6 +215,20 @@ func runC27(r *Run) {
 		return
 	}
 	kickedForForced := cl.Kick != nil
+	if kickedForForced && has117 && strings.Contains(cl.KickText(), "requiredTexturePrompt") {
+		// (before 1.17 a forced pack queued behind a declined one is auto-declined, which kicks by design)
+		// only the client's own decline (or failed download) of a forced pack it was shown justifies that kick
+		justified := false
+		for _, q := range packs {
+			if q.forced && q.prompted != 0 && (q.answer == "decline" || q.answer == "failed") {
+				justified = true
+			}
+		}
+		if !justified {
+			r.Fail("kicked-for-forced-pack-the-client-never-refused", familyC27(prot), "the player was kicked for refusing a required pack, but no forced pack that was shown to the client was declined: %s", desc())
+			return
+		}
+	}
 	if !modern {
 		if maxOutstanding > 1 {
 			r.Fail("two-prompts-outstanding", "legacy", "a pre-1.20.3 client had %d resource-pack prompts outstanding at once: %s", maxOutstanding, desc())
@@ -289,4 +314,14 @@ func runC27(r *Run) {
 	}
 	r.State(fmt.Sprintf("p%d n%d prompts%v", prot, nPacks, promptOrder))
 	r.Res.Sample = map[string]any{"protocol": int(prot), "packs": nPacks, "prompt_order": promptOrder, "backend_responses": backendResp, "max_outstanding": maxOutstanding}
+}
+
+func familyC27(p proto.Protocol) string {
+	switch {
+	case p.GreaterEqual(version.Minecraft_1_20_3):
+		return "modern"
+	case p.GreaterEqual(version.Minecraft_1_17):
+		return "legacy117"
+	}
+	return "legacy"
 }
